@@ -33,7 +33,7 @@ Theorem C05_face_exact :
   forall (pal256 gray4 : rgba -> N), (forall c, pal256 c < 256) ->
   forall (glyphs kitty : bool) (f : face), cmd_ok (Face f) = true ->
   exists bs t, encode pal256 gray4 (mkCaps TrueColor glyphs kitty) (Face f) = Ok bs /\
-    vt_ops bs = [OSgr t] /\
+    vt_ops bs = [OSgr t] /\ t_bad t = false /\
     forall prior : rendition, rt_apply t prior = face_rendition f.
 Proof. exact c05_face_exact_thm. Qed.
 
@@ -75,9 +75,10 @@ Theorem C05_selfcontained :
   exists bs, encode pal256 gray4 cp c = Ok bs /\ vt_complete bs = true.
 Proof. exact c05_selfcontained_thm. Qed.
 
-(*    ... so a stream of commands parses back into the same operations whatever
-      (complete) output preceded it. *)
-Theorem C05_stream :
+(*    ... so a stream of commands parses back into the same operations whatever preceded
+      it, PROVIDED what preceded is itself complete (vt_complete pre): after a dangling
+      ESC / unterminated string no encoding could help. *)
+Theorem C05_stream_after_complete_prefix :
   forall (pal256 gray4 : rgba -> N), (forall c, pal256 c < 256) ->
   forall (cp : caps) (cs : list cmd),
   forallb cmd_ok cs = true -> forallb (fun c => negb (is_raw c)) cs = true ->
